@@ -84,6 +84,13 @@ func (r *round1) Update(msg model.ConsensusMessage) *Error {
 		return nil
 	}
 
+	// only members of the verifying group may contribute a share: sign public keys
+	// are learnt from self-certified announcements, which anybody can send
+	if !r.group.MemExist(si.GetSignerID()) {
+		r.logger.Errorf("signer is not a group member, id: %s. hash: %s, height: %d", si.GetSignerID().GetHexString(), cvm.BlockHash.String(), bh.Height)
+		return nil
+	}
+
 	// get pubKey
 	pk, ok := group_create.GroupCreateProcessor.GetMemberSignPubKey(gid, si.GetSignerID())
 	if !ok {
